@@ -499,7 +499,8 @@ def check_on_geo1(
 
     # Transform to None empty dataframes
     for sheet, df in file_dict.items():
-        if df.empty:
+        # sensors names may be a plain list / array
+        if isinstance(df, pd.DataFrame) and df.empty:
             file_dict[sheet] = None
 
         # Transform to array relevant dataframes
@@ -742,7 +743,8 @@ def check_on_geo2(
 
     # Transform to None empty dataframes
     for sheet, df in file_dict.items():
-        if df.empty:
+        # sensors names may be a plain list / array
+        if isinstance(df, pd.DataFrame) and df.empty:
             file_dict[sheet] = None
 
         # Transform to array relevant dataframes
